@@ -1,5 +1,6 @@
 """C49 — thread pools: the real Team / pool() / ThreadPool stepped by an explicit schedule vs the Lean model,
 plus the property oracle on the real objects (and real-thread stress runs as supporting evidence)."""
+import functools
 import itertools
 import threading
 
@@ -16,8 +17,16 @@ RULE = ("op histories over Team.do/grow/shrink/quit, limit changes, ThreadPool.s
         "worker i performs one, k-th enabled queue performs one) and a stream of set.pop() choices; every call's func returns "
         "or raises and its onResult returns, RAISES or is None (func outcome x callback behaviour, ~half of all calls "
         "misbehave; a dedicated result-callback generator), exceptions drawn from Exception and BaseException classes "
-        "(ZeroDivisionError, a BaseException subclass, KeyboardInterrupt, SystemExit, GeneratorExit); oracle-only: tasks and "
-        "callbacks that call back into their own pool (submit, grow/shrink/adjust, start/stop/quit, nested twice); exhaustive "
+        "(ZeroDivisionError, a BaseException subclass, KeyboardInterrupt, SystemExit, GeneratorExit); unusual-but-legal values on "
+        "~40% of the calls: func RETURNS None/False/0/b''/a Failure/an exception instance/an exception class (identity of the "
+        "reported object is checked), func / task / onResult are falsy callable instances (__bool__ False, __len__ 0), "
+        "functools.partial objects or bound methods, calls carry positional and keyword arguments (callInThread and "
+        "callInThreadWithCallback); every stop() is checked to wait (join without timeout) for every pool thread that has not "
+        "ended, including threads told to stop earlier, and every created thread to be started; oracle-only: tasks and "
+        "callbacks that call back into their own pool (submit, grow/shrink/adjust, start/stop/quit, nested twice); ~30% of the "
+        "pool histories also run against the pool's own coordinator (mode lpool: the real LockWorker over a real Lock, real "
+        "log.err as logException; oracle-only); real-thread stress runs execute under a watchdog (a run that does not finish is "
+        "reported as a violation, not a hang); exhaustive "
         "small histories (team alphabet; call alphabet with all six call kinds) in the thorough tier; distinct = (mode, ops used, "
         "kinds of call actually run, BaseException/re-entrancy used, #workers created, tasks left pending, quit reached, refusals)")
 ASSUMES = [
@@ -29,6 +38,14 @@ ASSUMES = [
     "'raises' in the model stands for any BaseException (doWork and inContext catch BaseException); the harness raises Exception "
     "and non-Exception BaseException classes and the model line forgets the class",
     "task ids are distinct within a case (the oracle counts runs / onResult invocations / logged failures per id)",
+    "the Lean model abstracts from what func returns, what kind of callable object func / onResult is and which arguments a call "
+    "carries (the model line does not mention them; the state line must still agree) — that the reported object IS what func "
+    "returned, that func got its arguments and that a falsy callback is still called is judged by the oracle",
+    "mode lpool (real LockWorker coordinator: every coordinator item runs synchronously inside the call that queued it, so "
+    "adjustPoolsize reads the worker count between its own grow/shrink items) has no Lean counterpart: oracle-only. "
+    "Thread.join / Thread.start are not events of the model ('the joins are not part of the model'): the clause 'stop() returns "
+    "only after all pool threads have ended' is judged by the oracle on the fake threads (a blocking join of every thread "
+    "that has not ended) and by is_alive() after stop() in the real-thread runs",
     "the 'unless no worker could ever be created' clause is proved for histories whose limit function changes only through "
     "ThreadPool.start/stop/adjustPoolsize (a raw change is never signalled to Team: silent_limit_raise_starves) and for states "
     "before quit() (after quit a refused start() can raise the limit without a grow: start_after_stop_leaves_backlog); "
@@ -43,6 +60,10 @@ TRUSTED = [
     "twisted's pre-logging stderr observer is detached while a case runs",
     "pool mode: ThreadPool._pool hook builds the team with the real pool()/limitedWorkerCreator/ThreadWorker, with a fake Thread, "
     "a fake Queue stepped one item at a time through the real ThreadWorker work() loop, and a MemoryWorker coordinator",
+    "lpool mode: as pool mode but the coordinator is left as pool() built it (LockWorker(Lock(), local)); its quit() and the "
+    "team's logException (twisted.python.log.err) are wrapped only to log the event before calling the real one",
+    "a fake thread 'ends' only when its work() loop returns while being stepped; FakeThread.join records (timeout, ended) and "
+    "never blocks; real-thread runs use daemon threads and a 60 s watchdog (3 s after the first hang)",
 ]
 MANIFEST = {
     "text": "Lean theorems (TwistedProps/C49.lean) over every history of Team/ThreadPool operations, raw limit changes, schedule "
@@ -59,7 +80,8 @@ MANIFEST = {
             "the same clauses on the real objects on every run.",
     "note": "partial for real threads: Lock/Queue/Thread are assumed to implement the worker contract; stress runs with real "
             "threads only check the schedule-independent observables (incl. misbehaving callbacks). Re-entrant calls from a running "
-            "task / callback are judged by the oracle only (not in the Lean model)",
+            "task / callback, histories against the real LockWorker coordinator (lpool), thread start/join, returned-object "
+            "identity, call arguments and falsy callables are judged by the oracle only (not in the Lean model)",
     "technique": "Lean 4 proof (inductive invariant over all op histories) + differential tie with explicit schedules",
     "design_ref": "DESIGN.md §7.7 C49",
 }
@@ -78,6 +100,52 @@ EXC = [ZeroDivisionError, _Boom, KeyboardInterrupt, SystemExit, GeneratorExit]
 CB_RETURNS, CB_RAISES, CB_NONE = 0, 1, 2
 # ops a running task / a running callback may perform on the pool it runs in (re-entrant calls)
 NESTED_OK = ("d", "p", "g", "s", "q", "j", "+", "~", "S", "X", "l")
+
+
+# what a func that returns hands back (index 0 is the default): falsy values, a Failure / an exception RETURNED (not raised)
+RV = [lambda t: ("value", t), lambda t: None, lambda t: False, lambda t: 0, lambda t: Failure(ValueError(t)),
+      lambda t: ZeroDivisionError(t), lambda t: KeyboardInterrupt, lambda t: b""]
+# the positional / keyword arguments a call is submitted with
+ARGS = [((), {}), ((1,), {}), ((), {"k": 2}), ((1, "x"), {"k": 2, "z": None}), (((),), {}), ((None,), {"k": 0})]
+# what kind of object the callable (func / task / onResult) is: a function, callable instances that are FALSY
+# (__bool__ False, __len__ 0), a functools.partial, a bound method
+OBJ_PLAIN, OBJ_BOOL_FALSE, OBJ_LEN_ZERO, OBJ_PARTIAL, OBJ_METHOD = range(5)
+
+
+class _FalsyBool:
+    def __init__(self, f):
+        self.f = f
+
+    def __call__(self, *a, **k):
+        return self.f(*a, **k)
+
+    def __bool__(self):
+        return False
+
+
+class _FalsyLen:
+    def __init__(self, f):
+        self.f = f
+
+    def __call__(self, *a, **k):
+        return self.f(*a, **k)
+
+    def __len__(self):
+        return 0
+
+
+def _as_object(kind, f):
+    """the same behaviour as f, as another kind of callable object"""
+    kind = kind % 5
+    if kind == OBJ_BOOL_FALSE:
+        return _FalsyBool(f)
+    if kind == OBJ_LEN_ZERO:
+        return _FalsyLen(f)
+    if kind == OBJ_PARTIAL:
+        return functools.partial(f)
+    if kind == OBJ_METHOD:
+        return _FalsyBool(f).__call__
+    return f
 
 
 def _extra(op):
@@ -155,11 +223,13 @@ class FakeThread:
         self.started = False
         self.ended = False
         self.joined_alive = None
+        self.joins = []             # every join(): (timeout, had the thread ended)
 
     def start(self):
         self.started = True
 
-    def join(self):
+    def join(self, timeout=None):
+        self.joins.append((timeout, self.ended))
         self.joined_alive = not self.ended
 
 
@@ -187,13 +257,13 @@ class Rig:
         self.quit_at = None        # index of the top-level op during which Team.quit() first returned normally
         self.depth = 0
         self.raw_limit = False
+        self.retval = {}           # call id -> the very object func returned
+        self.badargs = []          # calls whose func was not called with the arguments it was submitted with
+        self.fthreads = []         # (worker number, FakeThread) of every thread the pool made
+        self.unjoined = []         # stop() returned although it did not wait for these threads
+        self.call_raised = None    # (op index, exception class) of a public call that raised something else than AlreadyQuit
         self.coordinator, self.coordinate_once = createMemoryWorker()
-        realq = self.coordinator.quit
-
-        def cquit():
-            realq()
-            self.log.append("cq")
-        self.coordinator.quit = cquit
+        self._log_cquit(self.coordinator)
         self.choices = list(choices)
         if mode == "team":
             self.team = Team(self.coordinator, self._create_memory, lambda: self.log.append(f"e{self.failing}"))
@@ -213,8 +283,20 @@ class Rig:
                 _poolmod.Queue = fq
                 self._restore = lambda: setattr(_poolmod, "Queue", old)
                 team = _poolmod.pool(currentLimit, self._thread_factory(threadFactory))
-                team._coordinator = self.coordinator
-                team._logException = lambda: self.log.append(f"e{self.failing}")
+                if self.mode == "lpool":
+                    # the coordinator pool() built: a real LockWorker over a real Lock (every coordinator item runs
+                    # inside the public call / worker step that queued it); logException stays twisted.python.log.err
+                    self.coordinator, self.coordinate_once = team._coordinator, lambda: False
+                    self._log_cquit(self.coordinator)
+                    real_err = team._logException
+
+                    def logged():
+                        self.log.append(f"e{self.failing}")
+                        real_err()
+                    team._logException = logged
+                else:
+                    team._coordinator = self.coordinator
+                    team._logException = lambda: self.log.append(f"e{self.failing}")
                 return team
 
             class P(_tp.ThreadPool):
@@ -225,6 +307,14 @@ class Rig:
         self.team._idle = ChoiceSet(self.choices)
         for what, name in enumerate(("do", "grow", "shrink", "quit")):
             self._wrap(what, name)
+
+    def _log_cquit(self, coordinator):
+        realq = coordinator.quit
+
+        def cquit():
+            realq()
+            self.log.append("cq")
+        coordinator.quit = cquit
 
     def _wrap(self, what, name):
         real = getattr(self.team, name)
@@ -246,7 +336,7 @@ class Rig:
         setattr(self.team, name, wrapped)
 
     def close(self):
-        if self.mode == "pool":
+        if self.mode != "team":
             self._restore()
 
     # -- worker creation --------------------------------------------------------------
@@ -283,11 +373,12 @@ class Rig:
         def factory(target):
             w = self._note_create(self.currentLimit())
             th = tracking(target=target)
+            self.fthreads.append((w, th))
             q = self.queues[-1]
             q.rig, q.wid = self, w
 
             def perform():
-                if th.ended or not q.items or q.items[0] is StopThread:
+                if not th.started or th.ended or not q.items or q.items[0] is StopThread:
                     return False
                 q.budget = 1
                 try:
@@ -324,23 +415,29 @@ class Rig:
 
     def task(self, t, raises, extra=None):
         extra = extra or {}
+        want = ARGS[extra.get("ar", 0) % len(ARGS)]
 
-        def body():
+        def body(*a, **k):
             self.running += 1
             if self.running > 1:
                 self.overlap = True
             try:
                 self.log.append(f"r{t}@{self.current}")
                 self.failing = t
+                if (a, k) != want:
+                    self.badargs.append((t, a, k))
                 if extra.get("in") == "f":
                     self.nested(extra.get("ops"))
                     self.failing = t
                 if raises:
                     self._raise("f", t, extra.get("fx", 0))
-                return ("value", t)
+                rv = RV[extra.get("rv", 0) % len(RV)](t)
+                self._keep.append(rv)
+                self.retval[t] = rv
+                return rv
             finally:
                 self.running -= 1
-        return body
+        return _as_object(extra.get("fo", 0), body)
 
     def on_result(self, t, extra):
         """the onResult argument: None, or a callback that records its invocation and then returns / raises"""
@@ -350,7 +447,7 @@ class Rig:
 
         def onResult(ok, res):
             if ok:
-                genuine = res == ("value", t)
+                genuine = t in self.retval and res is self.retval[t]
             else:
                 genuine = isinstance(res, Failure) and self.exc_of.get(id(res.value)) == ("f", t)
             self.reports.setdefault(t, []).append((bool(ok), genuine))
@@ -360,7 +457,7 @@ class Rig:
                 self.failing = t
             if cb == CB_RAISES:
                 self._raise("c", t, extra.get("cx", 0))
-        return onResult
+        return _as_object(extra.get("co", 0), onResult)
 
     def observe(self, event):
         """twisted.python.log observer: the log.err(failure) of inContext (Team's logException is `e<t>`)"""
@@ -377,7 +474,7 @@ class Rig:
     # -- ops --------------------------------------------------------------------------
     def enabled(self):
         out = []
-        if any(callable(x) for x in self.coordinator._pending):
+        if any(callable(x) for x in getattr(self.coordinator, "_pending", ())):
             out.append(None)
         for w, n in enumerate(self.qlen):
             if n() > 0:
@@ -404,6 +501,14 @@ class Rig:
             return True
         except AlreadyQuit:         # already logged by the wrapped Team method that raised it
             return False
+        except (_Pause, AssertionError):
+            raise
+        except BaseException as e:  # a public call may only refuse with AlreadyQuit
+            if self.call_raised is None:
+                self.call_raised = (self.top, type(e).__name__)
+            self.crashed = type(e).__name__
+            self.log.append("!" + type(e).__name__)
+            return False
 
     def apply(self, op):
         if self.crashed:
@@ -417,7 +522,7 @@ class Rig:
                    "cb": extra.get("cb", CB_RETURNS) if k == "p" else None, "quit_before": self.quit_at is not None}
             before = len(self.log)
         if k == "d":
-            self.guard(0, lambda: team.do(self.task(a[0], a[1], extra)))
+            self.guard(0, lambda: team.do(self.task(a[0], a[1], dict(extra, ar=0))))
         elif k == "g":
             self.guard(1, lambda: team.grow(a[0]))
         elif k == "s":
@@ -438,16 +543,23 @@ class Rig:
         elif k == "S":
             self.guard(1, pool.start)
         elif k == "X":
-            self.guard(3, pool.stop)
+            seen = {id(th): len(th.joins) for _, th in self.fthreads}
+            if self.guard(3, pool.stop):
+                # stop() returned: it must have waited (a join without timeout) for every thread that had not ended
+                for w, th in self.fthreads:
+                    mine = th.joins[seen.get(id(th), 0):]
+                    if not th.ended and not any(timeout is None for timeout, _ in mine):
+                        self.unjoined.append((self.top, w, [timeout for timeout, _ in mine]))
         elif k == "p":
             t = a[0]
             if pool.joined:
                 self.log.append(f"dr{t}")
             cb = self.on_result(t, extra)
+            args, kw = ARGS[extra.get("ar", 0) % len(ARGS)]
             if cb is None and t % 2:      # onResult None: through the public callInThread wrapper half of the time
-                self.guard(0, lambda: pool.callInThread(self.task(t, a[1], extra)))
+                self.guard(0, lambda: pool.callInThread(self.task(t, a[1], extra), *args, **kw))
             else:
-                self.guard(0, lambda: pool.callInThreadWithCallback(cb, self.task(t, a[1], extra)))
+                self.guard(0, lambda: pool.callInThreadWithCallback(cb, self.task(t, a[1], extra), *args, **kw))
         elif k == "j":
             try:
                 pool.adjustPoolsize(a[0], a[1])
@@ -478,7 +590,7 @@ class Rig:
                 + f"|busy={t._busyCount}"
                 + "|pend=" + ".".join(str(self._tid(x)) for x in t._pending)
                 + f"|shr={t._toShrink}|sq={1 if t._shouldQuitCoordinator else 0}|quit={1 if t._quit.isSet else 0}"
-                + f"|cq={sum(1 for x in cq._pending if callable(x))}:{1 if cq._quit.isSet else 0}"
+                + f"|cq={sum(1 for x in getattr(cq, '_pending', ()) if callable(x))}:{1 if cq._quit.isSet else 0}"
                 + "|w=" + ";".join(ws))
 
     def _wid(self, worker):
@@ -549,10 +661,26 @@ def oracle(case, out):
     else:
         _, rig, snaps = ent
     log = rig.log
+    if rig.call_raised:
+        return {"key": "public-call-raised", "detail": f"op {rig.call_raised[0]} {case['ops'][rig.call_raised[0]]} raised {rig.call_raised[1]}; "
+                                                        f"log {';'.join(log)}"}
     if rig.crashed:
         return {"key": "queue-item-raised", "detail": f"{rig.crashed} escaped a queue item; log {';'.join(log)}"}
     if rig.overlap:
         return {"key": "overlap", "detail": "two task bodies were active at once on one stepping thread"}
+    # (0) what running a task / stopping the pool means: func is called with the arguments it was submitted with; every
+    #     thread the pool creates is started; stop() returns only after waiting for every thread that has not ended
+    if rig.badargs:
+        t, a, k = rig.badargs[0]
+        return {"key": "wrong-arguments", "detail": f"func of call {t} was called with args {a!r} kw {k!r}, not those it was submitted with"}
+    for w, th in rig.fthreads:
+        if not th.started:
+            return {"key": "thread-not-started", "detail": f"the thread of worker {w} was created but never started; log {';'.join(log)}"}
+    if rig.unjoined:
+        i, w, timeouts = rig.unjoined[0]
+        return {"key": "stop-before-threads-ended",
+                "detail": f"stop() (op {i}) returned while the thread of worker {w} had not ended: "
+                          + (f"joined only with timeout(s) {timeouts}" if timeouts else "never joined") + f"; log {';'.join(log)}"}
     # (1) every task runs at most once; workers created only below the limit
     runs = {}
     for e in log:
@@ -631,15 +759,14 @@ def oracle(case, out):
                     "detail": f"task {t} (op {i}) never ran, {rig.live()} live worker(s) at the quiescent end; log {';'.join(log)}"}
         if raw_limit:
             continue
-        since = next((j for j in range(i, len(snaps)) if snaps[j]["backlog"] > 0), len(snaps))
-        for j in range(since, len(snaps)):
+        for j in range(i, len(snaps)):
             if quit_at is not None and j >= quit_at:
                 break
-            # the whole team rests (nothing queued that could still serve the backlog), before quit
-            if snaps[j]["limit"] > 0 and snaps[j]["live"] == 0 and snaps[j]["enabled"] == 0 and snaps[j]["backlog"] > 0:
-                return {"key": "starved-task",
-                        "detail": f"task {t} (op {i}) never ran although after op {j} {snaps[j]['op']} the team was quiescent with a "
-                                  f"backlog, no live worker and limit {snaps[j]['limit']}; log {';'.join(log)}"}
+            # the whole team rests (nothing queued that could still serve the task), before quit, and a worker could be created
+            if snaps[j]["limit"] > 0 and snaps[j]["live"] == 0 and snaps[j]["enabled"] == 0:
+                return {"key": "starved-task" if snaps[j]["backlog"] > 0 else "lost-task",
+                        "detail": f"task {t} (op {i}) never ran although after op {j} {snaps[j]['op']} the team was quiescent with "
+                                  f"backlog {snaps[j]['backlog']}, no live worker and limit {snaps[j]['limit']}; log {';'.join(log)}"}
     # (6) after quit, quiescent: all workers stopped, coordinator stopped
     if quit_at is not None:
         if rig.live() != 0:
@@ -652,10 +779,43 @@ def oracle(case, out):
 # ----------------------------------------------------------------------------------------
 # real threads (supporting evidence only; no model counterpart)
 
+_HANG = {"limit": 60.0}     # seconds a real-thread run may take (normally well under 1 s); shortened after the first hang
+
+
+class _DaemonPool(_tp.ThreadPool):
+    """ThreadPool whose threads are daemon threads, so that a wedged pool cannot keep the checker process alive"""
+
+    @staticmethod
+    def threadFactory(*a, **kw):
+        return threading.Thread(*a, daemon=True, **kw)
+
+
 def _run_threads(case):
+    """the stress run under a watchdog: stop() that never returns (a thread that is never told to stop, never started,
+    a lost coordinator item) is a violation of 'after quit every worker is stopped', not a reason to hang the check"""
+    box = {}
+
+    def runner():
+        try:
+            box["out"] = _run_threads_inner(case)
+        except BaseException as e:      # re-raised in the calling thread (the engine maps it to `!raised Name`)
+            box["exc"] = e
+    th = threading.Thread(target=runner, daemon=True, name="c49-stress")
+    th.start()
+    th.join(_HANG["limit"])
+    if th.is_alive():
+        _HANG["limit"] = 3.0
+        return (f"hang: the run (submit {case['tasks']} tasks, then stop()) did not finish: stop() never returned "
+                "or a submission blocked")
+    if "exc" in box:
+        raise box["exc"]
+    return box["out"]
+
+
+def _run_threads_inner(case):
     import random
     rng = random.Random(case["seed"])
-    pool = _tp.ThreadPool(case["min"], case["max"], name="c49")
+    pool = _DaemonPool(case["min"], case["max"], name="c49")
     lock = threading.Lock()
     runs, results, active, bad = {}, {}, {}, []
     flogged, clogged, exc_of, keep = {}, {}, {}, []
@@ -669,8 +829,13 @@ def _run_threads(case):
             exc_of[id(e)] = (who, t)
         raise e
 
-    def mk(t, raises, cls):
-        def body():
+    retval = {}
+
+    def mk(t, raises, cls, rv=0, fo=0, ar=0):
+        def body(*a, **k):
+            if (a, k) != ARGS[ar]:
+                with lock:
+                    bad.append(f"func of task {t} called with {a!r} {k!r}, submitted with {ARGS[ar]!r}")
             me = threading.current_thread()
             with lock:
                 runs[t] = runs.get(t, 0) + 1
@@ -682,23 +847,25 @@ def _run_threads(case):
             try:
                 if raises:
                     boom("f", t, cls)
-                return ("value", t)
+                with lock:
+                    retval[t] = RV[rv](t)
+                    return retval[t]
             finally:
                 with lock:
                     active[me] -= 1
-        return body
+        return _as_object(fo, body)
 
-    def on(t, cb, cls):
+    def on(t, cb, cls, co=0):
         if cb == CB_NONE:
             return None
 
         def onResult(ok, res):
             with lock:
-                genuine = (res == ("value", t)) if ok else (isinstance(res, Failure) and exc_of.get(id(res.value)) == ("f", t))
+                genuine = (t in retval and res is retval[t]) if ok else (isinstance(res, Failure) and exc_of.get(id(res.value)) == ("f", t))
                 results.setdefault(t, []).append((bool(ok), genuine))
             if cb == CB_RAISES:
                 boom("c", t, cls)
-        return onResult
+        return _as_object(co, onResult)
 
     def observe(event):
         if not event.get("isError") or event.get("failure") is None:
@@ -714,13 +881,17 @@ def _run_threads(case):
         cb = rng.choice([CB_RETURNS, CB_RETURNS, CB_RAISES, CB_RAISES, CB_NONE]) if faults else CB_RETURNS
         cls = rng.randrange(len(EXC)) if faults else 0
         plan.append((raises, cb, cls, rng.randrange(len(EXC)) if faults else 0))
+    # unusual values (what func returns, kinds of callable object, call arguments) in the runs with faults
+    odd = [tuple(rng.randrange(n) if faults and rng.random() < 0.4 else 0 for n in (len(RV), 5, 5, len(ARGS))) for t in range(n + 1)]
 
     def submit(t):
         raises, cb, fcls, ccls = plan[t]
+        rv, co, fo, ar = odd[t]
+        args, kw = ARGS[ar]
         if cb == CB_NONE and t % 2:
-            pool.callInThread(mk(t, raises, fcls))
+            pool.callInThread(mk(t, raises, fcls, rv, fo, ar), *args, **kw)
         else:
-            pool.callInThreadWithCallback(on(t, cb, ccls), mk(t, raises, fcls))
+            pool.callInThreadWithCallback(on(t, cb, ccls, co), mk(t, raises, fcls, rv, fo, ar), *args, **kw)
     restore = _quiet()
     _tlog.addObserver(observe)
     try:
@@ -794,8 +965,8 @@ def _enc_op(op):
 
 
 def model_line(case):
-    if case["mode"] == "threads" or _has_nested(case):
-        return None         # oracle-only: real threads; tasks / callbacks that call back into the pool
+    if case["mode"] in ("threads", "lpool") or _has_nested(case):
+        return None         # oracle-only: real threads; the real LockWorker coordinator; tasks / callbacks that call back into the pool
     ch = ".".join(str(c) for c in case.get("choices", [])) or "-"
     ops = ",".join(_enc_op(op) for op in case["ops"]) or "-"
     if case["mode"] == "team":
@@ -845,6 +1016,23 @@ def corpus():
         {"mode": "team", "limit": 1, "choices": [], "ops": [["d", 0, True, {"in": "f", "ops": [["d", 1, False], ["q"], ["d", 2, False]]}], ["d", 3, False]] + _drain(30)},
         {"mode": "team", "limit": 2, "choices": [1], "ops": [["d", 0, False, {"in": "f", "ops": [["g", 2], ["d", 1, True, {"in": "f", "ops": [["s", None], ["d", 2, False]]}]]}]] + _drain(40) + [["q"]] + _drain(8)},
         {"mode": "threads", "min": 0, "max": 3, "max2": 5, "tasks": 60, "seed": 2, "prestart": True, "faults": True},
+        # unusual-but-legal values (mutation audit): func RETURNS a Failure / an exception / falsy values; onResult / func are
+        # falsy callable objects, partials, bound methods; calls with positional and keyword arguments (callInThread for odd ids)
+        {"mode": "pool", "min": 0, "max": 1, "choices": [], "ops": [["S"]] + [["p", v, False, {"rv": v}] for v in range(len(RV))] + _drain(40)},
+        {"mode": "pool", "min": 0, "max": 2, "choices": [], "ops": [["S"]] + [
+            ["p", 5 * r + o, bool(r), {"co": o, "fo": (o + 1) % 5, "cb": CB_RAISES if o == 3 else CB_RETURNS}] for r in (0, 1) for o in range(5)] + _drain(50)},
+        {"mode": "pool", "min": 0, "max": 2, "choices": [], "ops": [["p", a, False, {"ar": a // 2, "cb": CB_NONE if a % 2 else CB_RETURNS}] for a in range(2 * len(ARGS))]
+         + [["S"]] + [["p", 20 + a, True, {"ar": a, "cb": CB_NONE}] for a in range(len(ARGS))] + _drain(80)},
+        {"mode": "team", "limit": 2, "choices": [], "ops": [["d", o, o == 2, {"fo": o, "rv": o}] for o in range(5)] + _drain(30) + [["q"]] + _drain(6)},
+        # stop() waits for every thread that has not ended, including those told to stop earlier (stopAWorker / a lowered maximum)
+        {"mode": "pool", "min": 0, "max": 3, "choices": [], "ops": [["S"], ["p", 0, False], ["p", 1, False], ["p", 2, False]] + _drain(12)
+         + [["~"], ["j", 0, 1]] + _drain(6) + [["p", 3, False], ["c"], ["X"]] + _drain(12)},
+        # the pool's own coordinator (a real LockWorker): stop with every worker idle, stop with a busy worker, stop twice,
+        # start after stop, a backlog released by start() / adjustPoolsize
+        {"mode": "lpool", "min": 1, "max": 2, "choices": [], "ops": [["S"], ["p", 0, False], ["p", 1, True, {"cb": CB_RAISES}]] + _drain(8) + [["X"], ["p", 2, False], ["X"], ["S"]] + _drain(4)},
+        {"mode": "lpool", "min": 0, "max": 1, "choices": [], "ops": [["p", 0, False], ["p", 1, False, {"cb": CB_NONE}], ["S"], ["p", 2, True], ["X"]] + _drain(12)},
+        {"mode": "lpool", "min": 0, "max": 0, "choices": [], "ops": [["S"], ["p", 0, False], ["j", None, 2], ["p", 1, False], ["~"], ["+"]] + _drain(8) + [["j", 0, 1], ["X"]] + _drain(4)},
+        {"mode": "lpool", "min": 0, "max": 2, "choices": [], "ops": [["S"], ["p", 0, False, {"in": "c", "ops": [["p", 1, True, {"cb": CB_RAISES}], ["X"], ["p", 2, False]]}]] + _drain(12)},
     ]
 
 
@@ -857,6 +1045,15 @@ def _call_extra(rng, p_fault=0.5):
         extra["fx"] = rng.randrange(len(EXC))
     if rng.random() < 0.4:
         extra["cx"] = rng.randrange(len(EXC))
+    # unusual-but-legal values: what func returns, what kind of object func / onResult is, the arguments of the call
+    if rng.random() < 0.35:
+        extra["rv"] = rng.randrange(1, len(RV))
+    if rng.random() < 0.3:
+        extra["co"] = rng.randrange(1, 5)
+    if rng.random() < 0.25:
+        extra["fo"] = rng.randrange(1, 5)
+    if rng.random() < 0.4:
+        extra["ar"] = rng.randrange(1, len(ARGS))
     return extra
 
 
@@ -866,7 +1063,21 @@ def _p(rng, t, p_fault=0.5):
 
 
 def _d(rng, t):
-    return ["d", t, rng.random() < 0.3] + ([{"fx": rng.randrange(len(EXC))}] if rng.random() < 0.3 else [])
+    extra = {}
+    if rng.random() < 0.3:
+        extra["fx"] = rng.randrange(len(EXC))
+    if rng.random() < 0.25:
+        extra["fo"] = rng.randrange(1, 5)
+    if rng.random() < 0.2:
+        extra["rv"] = rng.randrange(1, len(RV))
+    return ["d", t, rng.random() < 0.3] + ([extra] if extra else [])
+
+
+def _lock(rng, case, p=0.3):
+    """the same history against the pool's own coordinator (a real LockWorker): oracle-only"""
+    if case["mode"] == "pool" and rng.random() < p:
+        case["mode"] = "lpool"
+    return case
 
 
 def _team_case(rng, big):
@@ -1065,6 +1276,8 @@ def _exhaustive_calls(rng):
                 for i, h in enumerate(hist):
                     ops.append([h[0], i] + h[2:] if h[0] == "p" else list(h))
                 yield {"mode": "pool", "min": 0, "max": mx, "choices": [], "ops": ops + _drain(16)}
+                if rng.random() < 0.25:
+                    yield {"mode": "lpool", "min": 0, "max": mx, "choices": [], "ops": ops + _drain(16)}
 
 
 def _exhaustive(rng):
@@ -1089,13 +1302,13 @@ def generate(rng, tier):
         if r < 0.35:
             yield _team_case(rng, big)
         elif r < 0.6:
-            yield _pool_case(rng, big)
+            yield _lock(rng, _pool_case(rng, big))
         elif r < 0.72:
-            yield _pool_phase_case(rng)
+            yield _lock(rng, _pool_phase_case(rng))
         elif r < 0.9:
-            yield _cb_case(rng, big)
+            yield _lock(rng, _cb_case(rng, big))
         else:
-            yield _nested_case(rng, big)
+            yield _lock(rng, _nested_case(rng, big))
     for i in range(6 if not big else 60):
         mx = rng.choice([1, 2, 4])
         yield {"mode": "threads", "min": rng.choice([0, 1]), "max": mx, "max2": rng.choice([1, 3, 5]),
@@ -1109,7 +1322,7 @@ def generate(rng, tier):
 def search(rng, tier, disagreeing):
     for i in range(4000):
         r = rng.random()
-        yield _team_case(rng, True) if r < 0.4 else _pool_case(rng, True) if r < 0.7 else _cb_case(rng, True) if r < 0.9 else _nested_case(rng, True)
+        yield _team_case(rng, True) if r < 0.4 else _lock(rng, _pool_case(rng, True) if r < 0.7 else _cb_case(rng, True) if r < 0.9 else _nested_case(rng, True))
 
 
 def shrink(case):
@@ -1125,6 +1338,8 @@ def shrink(case):
     if case.get("choices"):
         yield dict(case, choices=case["choices"][:-1])
     # simplify what a call does: drop re-entrant ops one at a time, default exception classes, well-behaved callback
+    if case["mode"] == "lpool":
+        yield dict(case, mode="pool")
     for i, op in enumerate(ops):
         extra = _extra(op)
         if not extra:
@@ -1132,7 +1347,7 @@ def shrink(case):
         cands = []
         for j in range(len(extra.get("ops") or [])):
             cands.append(dict(extra, ops=extra["ops"][:j] + extra["ops"][j + 1:]))
-        for key in ("ops", "in", "fx", "cx", "cb"):
+        for key in ("ops", "in", "fx", "cx", "cb", "rv", "co", "fo", "ar"):
             if key in extra:
                 cands.append({k: v for k, v in extra.items() if k != key})
         for e in cands:
@@ -1150,6 +1365,8 @@ def tag(case, out):
     calls = "".join(sorted({("PF"[0] if not op[2] else "F") + "rxn"[_extra(op).get("cb", CB_RETURNS)]
                             for op in case["ops"] if op[0] == "p" and f";r{op[1]}@" in out.replace("=r", ";r")}))
     base = "B" if any(_extra(op).get("fx", 0) or _extra(op).get("cx", 0) for op in case["ops"]) else "-"
+    base += "".join(sorted({{"rv": "V", "co": "O", "fo": "O", "ar": "A"}[k] for op in case["ops"] for k in ("rv", "co", "fo", "ar")
+                            if _extra(op).get(k, 0)}))
     kinds += ":" + calls + base + ("N" if _has_nested(case) else "")
     created = out.count(";c") + (1 if out.startswith("log=c") else 0)
     pend = "P" if "|pend=|" not in out else "-"
